@@ -63,7 +63,7 @@ def sv_component(entries, flags=()):
         if nid is not None:
             e += net.name_wire(NODES[nid])
         if seq is not None:
-            e += T.enc_tlv(0xcc, T.enc_nni(seq))
+            e += T.enc_tlv(0xcc, T.enc_nni(seq) if 'bad-width' not in flags else seq.to_bytes(3, 'big'))
         body += T.enc_tlv(0xca, e)
     vec = body
     # StateVecWrapper: 0xc9 { entries 0xca* }   (the wrapper TLV itself is used as the name component)
@@ -452,7 +452,7 @@ _ENTRY = st.tuples(st.sampled_from(['n1', 'n2', 'n3', 'me', 'n1']), st.sampled_f
 def _ops():
     recv = st.fixed_dictionaries({'op': st.just('recv'), 'entries': st.lists(_ENTRY, min_size=0, max_size=4),
                                   'via': st.sampled_from(['receive', 'handler']), 'stop_during': st.sampled_from([False, False, False, True]),
-                                  'flags': st.sampled_from([[]] * 10 + [['truncated'], ['wrong-type']])})
+                                  'flags': st.sampled_from([[]] * 10 + [['truncated'], ['wrong-type'], ['bad-width']])})
     publish = st.fixed_dictionaries({'op': st.just('publish'), 'then_vector': st.sampled_from([False, False, True])})
     restart = st.fixed_dictionaries({'op': st.just('restart'), 'gap': st.booleans()})
     adv = st.fixed_dictionaries({'op': st.just('adv'), 'how': st.sampled_from(['0', '1ms', 'before', 'at', 'after', 'after']),
